@@ -71,6 +71,21 @@ Theorem C14_lock_excludes : forall pre0 mid a b h,
 Proof. exact lock_excludes. Qed.
 Print Assumptions C14_lock_excludes.
 
+(* The lock FILE: the flock is on the inode behind <first content>.lock.  With the path explicit (a Try opens/creates the path
+   and flocks the inode it names, FUnlink removes the path): while no command removes the path, at most one command holds
+   the lock at any time, in every schedule ... *)
+Theorem C14_lock_file_excludes : forall tr, ~ In FUnlink tr -> (length (ls_holders (frun ls0 tr)) <= 1)%nat.
+Proof. intros tr NU. exact (lock_file_excludes tr ls0 NU linv_ls0). Qed.
+Print Assumptions C14_lock_file_excludes.
+
+(* ... and the hypothesis is necessary: P1 releases, P2 locks the old inode, P1 removes the path, P3 creates and locks a new
+   inode: two holders.  (The check asserts on every run, from the shim's write-set log and the snapshot, that no command
+   unlinks, renames or replaces the lock file.) *)
+Theorem C14_lock_file_removed_refuted :
+  length (ls_holders (frun ls0 [FTry 1; FFinish 1; FTry 2; FUnlink; FTry 3])) = 2%nat.
+Proof. exact lock_file_unlink_refuted. Qed.
+Print Assumptions C14_lock_file_removed_refuted.
+
 (* non-vacuity *)
 Example C14_example_empty_refused :
   run Sync o0 (p0 [ds_ok; ds_gone] [9; 8]) = ([WLog; WLock], ExRefused)
